@@ -6,22 +6,40 @@ def serve(arg):
     import periodictable
     from periodictable import core, mass, density
     tabs = {"public": periodictable.elements}
-    if arg.get("private"):
+    variant = arg.get("variant", 0)
+
+    def make_private():
         t = core.PeriodicTable("T1")
-        mass.init(t)
-        density.init(t)
-        tabs["T1"] = t
+        if variant & 2:           # the two loaders in the other order
+            density.init(t)
+            mass.init(t)
+        else:
+            mass.init(t)
+            density.init(t)
+        return t
+    late_private = bool(variant & 4) and arg.get("private")     # the private table is only created after the public one was served
+    if arg.get("private") and not late_private:
+        tabs["T1"] = make_private()
     out = []
-    for T, t in sorted(tabs.items()):
+    order = sorted(tabs.items(), reverse=True) + ([("T1", None)] if late_private else [])
+    for T, t in order:
+        if t is None:
+            t = make_private()
         for z in arg["zs"]:
             el = t[z]
-            for at, a in [(el, 0)] + [(iso, iso.isotope) for iso in el]:
+            ats = [(el, 0)] + [(iso, iso.isotope) for iso in el]
+            if variant & 1:       # the first thing this interpreter is asked is the density of an isotope
+                ats = ats[1:] + ats[:1]
+            for at, a in ats:
                 ev = {"ev": "serve", "T": T, "z": z, "a": a}
                 try:
+                    if variant & 1:
+                        ev["density"] = dec.enc(at.density)
                     ev["mass"] = dec.enc(at.mass)
                     ev["mass_unc"] = dec.enc(at._mass_unc)
                     ev["abundance"] = dec.enc(at.abundance) if a else {"k": "none"}
-                    ev["density"] = dec.enc(at.density)
+                    if not variant & 1:
+                        ev["density"] = dec.enc(at.density)
                     ev["number_density"] = dec.enc(at.number_density)
                     ev["interatomic_distance"] = dec.enc(at.interatomic_distance)
                 except Exception as e:
